@@ -236,7 +236,7 @@ def make_search(mido, kind, depth):
                 out.append(('recv', sc))
                 if kind != 'echo':
                     out.append(('iter_next', sc))
-        out += [('close',), ('with',), ('del',)]
+        out += [('close',), ('with',), ('with_raise',), ('del',)]
         if s.autoreset_dev is not None and not s.closed_model:
             out += [('arm_fail', 1), ('arm_fail', 7), ('arm_fail', 32)]
         if kind != 'echo' and s.can_in and not s.closed_model:
@@ -349,12 +349,21 @@ def make_search(mido, kind, depth):
                 except Exception as e:
                     # what was yielded before the failure was received
                     res = ('values-then-raised', items, e)
-            elif k in ('close', 'with', 'del'):
+            elif k in ('close', 'with', 'with_raise', 'del'):
                 try:
                     if k == 'close':
                         p.close()
                     elif k == 'with':
                         with p:
+                            pass
+                    elif k == 'with_raise':
+                        # the body of the with block fails: the port is
+                        # closed all the same (whether the exception then
+                        # propagates is not judged here)
+                        try:
+                            with p:
+                                raise KeyError('body of the with block')
+                        except KeyError:
                             pass
                     else:
                         p.__del__()
@@ -411,7 +420,7 @@ def make_search(mido, kind, depth):
                 bad('released-twice', f'device {d.name} released '
                     f'{d.released} times')
                 return
-        if k in ('close', 'with', 'del'):
+        if k in ('close', 'with', 'with_raise', 'del'):
             if res[0] == 'raised':
                 bad(f'close-raised/{type(res[1]).__name__}', f'{res[1]!r}')
                 return
@@ -717,6 +726,105 @@ def bulk_backlog(mido, rep):
                                   f'order broken)', case)
 
 
+def multi_functions(mido, rep):
+    """The function forms next to MultiPort: multi_receive (a generator that
+    blocks by default), multi_iter_pending, multi_send, with and without
+    yield_ports - same drain / blocking rules as the port."""
+    tshim, _ = install_seams(mido)
+    M = mido.Message
+    P = mido.ports
+
+    def fresh(n):
+        s = build_port(mido, 'multi-of-direct')
+        want = []
+        for j in range(n):
+            src = j % 2
+            m = M('note_on', channel=src, note=j, velocity=1 + src)
+            s.devs[src].incoming.append(m)
+            want.append((src, j))
+        return s, want
+
+    def ids(items, with_ports, s):
+        out = []
+        for it in items:
+            if with_ports:
+                if not (isinstance(it, tuple) and len(it) == 2
+                        and it[0] is s.children[it[1].channel]):
+                    return f'expected (port, message) pairs, got {it!r}'
+                it = it[1]
+            if not isinstance(it, M):
+                return f'expected messages, got {it!r}'
+            out.append((it.channel, it.note))
+        return out
+
+    def judge(label, got, want, case):
+        rep.add('evaluations')
+        rep.add('distinct_nontrivial')
+        if isinstance(got, str) or sorted(got) != sorted(want) or any(
+                [g for g in got if g[0] == c] != [w for w in want if w[0] == c]
+                for c in (0, 1)):
+            rep.violation(f'multi-functions/{label}',
+                          f'{label}: got {got!r:.300}, expected {want!r:.300} '
+                          f'(each once, per-port order)', case)
+
+    for n in (0, 1, 4, 7):
+        for yp in (None, False, True):
+            kw = {} if yp is None else {'yield_ports': yp}
+            case = {'kind': 'multi-functions', 'n': n, 'yield_ports': yp}
+            sleeps = [0]
+
+            def on_sleep(sec):
+                sleeps[0] += 1
+                raise Horizon()
+            tshim.on_sleep = on_sleep
+            try:
+                s, want = fresh(n)
+                judge('multi_iter_pending', ids(list(P.multi_iter_pending(
+                    s.children, **kw)), bool(yp), s), want, case)
+                s, want = fresh(n)
+                judge('multi_receive(block=False)', ids(list(P.multi_receive(
+                    s.children, block=False, **kw)), bool(yp), s), want, case)
+                # default: blocking - hands out what is there, then waits
+                s, want = fresh(n)
+                gen = P.multi_receive(s.children, **kw)
+                got = []
+                ended = 'slept'
+                try:
+                    for _ in range(n + 1):
+                        got.append(next(gen))
+                    ended = 'extra-item'
+                except Horizon:
+                    pass
+                except StopIteration:
+                    ended = 'stopped'
+                judge('multi_receive()', ids(got, bool(yp), s), want, case)
+                if ended != 'slept' or sleeps[0] != 1:
+                    rep.violation('multi-functions/multi_receive()/blocking',
+                                  f'multi_receive(ports) with {n} pending: '
+                                  f'after handing them out it {ended} '
+                                  f'({sleeps[0]} sleeps); it must wait',
+                                  case)
+            except Exception as e:
+                rep.violation(f'multi-functions/raised/{type(e).__name__}',
+                              f'{e!r}', case)
+            finally:
+                tshim.on_sleep = None
+    # multi_send: every port gets its own copy
+    s = build_port(mido, 'multi')
+    m = M('note_on', note=5, velocity=9)
+    rep.add('evaluations')
+    try:
+        P.multi_send(s.children, m)
+        for d in s.devs:
+            if len(d.sent) != 1 or d.sent[0] is m or vars(d.sent[0]) != vars(m):
+                rep.violation('multi-functions/multi_send',
+                              f'device {d.name} got {d.sent!r}',
+                              {'kind': 'multi-functions'})
+    except Exception as e:
+        rep.violation(f'multi-functions/multi_send/{type(e).__name__}',
+                      f'{e!r}', {'kind': 'multi-functions'})
+
+
 def run():
     common.import_mido()
     thorough = common.tier() == 'thorough'
@@ -734,6 +842,7 @@ def run():
         rep.add('evaluations', srch.transitions)
         rep.add('distinct_nontrivial', srch.transitions)
     bulk_backlog(mido, rep)
+    multi_functions(mido, rep)
     rep.coverage['bulk_backlogs'] = list(BACKLOGS)
     rep.coverage['bfs_depth'] = depth
     rep.coverage['port_kinds'] = list(KINDS)
@@ -767,6 +876,10 @@ def check_case(case):
     if case.get('kind') == 'bulk':
         rep = Report(PROP, 'model_checking')
         bulk_backlog(mido, rep)
+        return [(k, v[0].what) for k, v in rep.violations.items()]
+    if case.get('kind') == 'multi-functions':
+        rep = Report(PROP, 'model_checking')
+        multi_functions(mido, rep)
         return [(k, v[0].what) for k, v in rep.violations.items()]
     srch = make_search(mido, case['port'], 99)
     hist = tuple(tuple(tuple(x) if isinstance(x, list) else x for x in o)
